@@ -57,10 +57,16 @@ func c14(c *Ctx) {
 	r.Rule("R14.1", "table exhaustiveness and typing: keys = Data_* constants; concrete result types per key are of the class the property states; lazy and preload tables yield the same class per key")
 	r.Rule("R14.2", "dispatch shape of the reifier dispatcher, read from its CFG: !ok of the dag-pb assertion ⇒ return (parameter, nil); Data absent ⇒ default reifier; decode error ⇒ default reifier; table miss ⇒ (nil, error)")
 	r.Rule("R14.3", "kind: every file node type returns the constant Kind_Bytes from Kind() or embeds a node that is bytes-kind at every allocation; every directory node type's Kind() returns the Kind() of its dag-pb substrate")
+	r.Rule("R14.6", "a node that claims to be a HAMT shard is reified only with valid parameters: the validator reached from the shard constructor hands the Fanout to a check whose every possibly-successful return is dominated by v > 0 (and that tests the power of two)")
 	r.Rule("R14.5", "totality of the dispatch: every may-panic construct (index, slice, unchecked assertion, Must) in the registered reifiers, the root-package functions they reach and every reader-package function the lazy reifier reaches (constructors of the table members, their validators, the UnixFS decoder) is discharged by C13's guard recognition — an out-of-range or negative data type must end in the error return, not in a panic")
 	r.Rule("R14.4", "substrate identity: Substrate() returns a load of receiver field F; every allocation of the type stores into F a parameter of the allocating function; along every static call chain up to the dispatcher that argument is again the caller's own substrate parameter")
 
 	c.checkDispatchTotality()
+	if ok, why := newDischarger(c).fanoutCheckedPositive(); ok {
+		r.OK("R14.6", "hamt/fanout-validated", "-", "the shard constructor's validator rejects every fanout that is not a positive power of two")
+	} else {
+		r.Violate("R14.6", "hamt/fanout-validated", "-", "an invalid HAMT shard is reified instead of being refused: "+why)
+	}
 	lazy, preload, lazyName, preloadName, ok := c.lazyAndPreloadTables()
 	if !ok {
 		r.Break("cannot identify the reifier tables (two package-level maps from data type to constructor reached from the registered reifiers)")
